@@ -31,9 +31,22 @@ type Report struct {
 	DontCare   map[string]map[string]int
 	Count      map[string]map[string]int
 	Samples    map[string][]string
+	// Unmodelled: histories in which escalator made an API call the simulated services do not model (case id -> the call).
+	// Nothing observed in such a history can be judged: the call was answered "not supported".
+	Unmodelled map[string]string
 	caseID     string
 	scanNo     int
 	MaxViol    int
+}
+
+// NoteUnmodelled records that the current history contains a call the simulation cannot answer faithfully.
+func (r *Report) NoteUnmodelled(what string) {
+	if r.Unmodelled == nil {
+		r.Unmodelled = map[string]string{}
+	}
+	if _, ok := r.Unmodelled[r.caseID]; !ok {
+		r.Unmodelled[r.caseID] = what
+	}
 }
 
 func NewReport() *Report {
